@@ -174,6 +174,28 @@ func (h *histRun) step(r roundIn) {
 		validTerms = append(validTerms, fmt.Sprintf("(%s, %s)", coqBool(o.Honest), coqBool(valid)))
 	}
 	rec["honest_observation_error"] = honestErr
+	// wire level: the observation bytes handed to Outcome and the cache's answer for every attestation in them
+	wireTerm := "None"
+	{
+		total := 0
+		var bs, tbl []string
+		seen := map[string]bool{}
+		for _, ao := range aos {
+			total += len(ao.Observation)
+			bs = append(bs, coqHex(ao.Observation))
+			if ob, err := p.ObservationCodec.Decode(ao.Observation); err == nil && len(ob.AttestedPredecessorRetirement) != 0 && !seen[string(ob.AttestedPredecessorRetirement)] {
+				seen[string(ob.AttestedPredecessorRetirement)] = true
+				ans := "None"
+				if rr, err := h.rcache.CheckAttestedRetirementReport(predDigest, ob.AttestedPredecessorRetirement); err == nil {
+					ans = "(Some " + coqU64Map(rr.ValidAfterNanoseconds) + ")"
+				}
+				tbl = append(tbl, fmt.Sprintf("(%s, %s)", coqHex(ob.AttestedPredecessorRetirement), ans))
+			}
+		}
+		if total < 4000 && len(aos) <= 12 {
+			wireTerm = fmt.Sprintf("(Some (%s, %s))", coqList(bs), coqList(tbl))
+		}
+	}
 	// Outcome
 	var outBytes []byte
 	oerr, opanic, opv := protect(func() error {
@@ -263,8 +285,8 @@ func (h *histRun) step(r roundIn) {
 	if oerr == nil && !opanic && len(prev)+len(outBytes) < 6000 {
 		bytesTerm = fmt.Sprintf("(Some (%s, %s))", coqHex(prev), coqHex(outBytes))
 	}
-	h.rounds = append(h.rounds, fmt.Sprintf("{| rd_inst := %s; rd_seq := %d; rd_prev := %s; rd_target := %s; rd_scripted := %s; rd_retire := %s; rd_aos := %s; rd_valid := %s; rd_refused := %s; rd_out := %s; rd_bytes := %s; rd_rep := %s; rd_retirement := %s; rd_reports := %s |}",
-		coqNat(r.Inst), r.Seq, prevTerm, coqDefs(tgt), coqBool(scriptedRound), coqBool(r.Retire), coqList(obsTerms), coqList(validTerms), coqBool(honestErr != ""), outTerm, bytesTerm, repKind, repRet, coqList(repTerms)))
+	h.rounds = append(h.rounds, fmt.Sprintf("{| rd_inst := %s; rd_seq := %d; rd_prev := %s; rd_target := %s; rd_scripted := %s; rd_retire := %s; rd_aos := %s; rd_valid := %s; rd_refused := %s; rd_out := %s; rd_bytes := %s; rd_wire := %s; rd_rep := %s; rd_retirement := %s; rd_reports := %s |}",
+		coqNat(r.Inst), r.Seq, prevTerm, coqDefs(tgt), coqBool(scriptedRound), coqBool(r.Retire), coqList(obsTerms), coqList(validTerms), coqBool(honestErr != ""), outTerm, bytesTerm, wireTerm, repKind, repRet, coqList(repTerms)))
 	h.outs = append(h.outs, rec)
 }
 
